@@ -182,7 +182,7 @@ def norm_scope(scope):
 def cases(draw, max_nodes):
     use_reg = draw(st.booleans())
     fail = draw(st.sampled_from([0, 0, 3, 6]))
-    g = specs.Gen(draw, registry=use_reg, opaque=False, failures=fail)
+    g = specs.Gen(draw, registry=use_reg, opaque=False, failures=fail, late=True, lits=2)
     n = draw(st.integers(1, max_nodes))
     while len(g.nodes) < n:
         g.add_any()
@@ -195,8 +195,9 @@ def cases(draw, max_nodes):
     if use_reg:
         for _ in range(draw(st.integers(0, 2))):
             pre.append(draw(st.sampled_from(["run", "delete_some", "update_some"])))
+    tkind = draw(st.sampled_from([None, None, None, "copy", "copy_add", "copy_wrap", "inplace_add", "inplace_wrap"]))
     return {"spec": spec, "cfg": cfg, "registry": use_reg, "pre": pre, "nobs": draw(st.integers(1, 3)),
-            "sched": draw(harness.schedules())}
+            "sched": draw(harness.schedules()), "transform": tkind}
 
 
 def validate_sequence(events, success):
@@ -274,15 +275,24 @@ def check_case(ctx, case, record=True):
     if output == {"c": None}:
         output = None
     need = refmodel.needed(spec, ood, output, registry=use_reg)
-    out = harness.execute(lambda: w.run(cfg, registry=case["registry"], progress=progress), sc)
+    tkind = case.get("transform")
+    xkw = {"transform_physical": w.transform(tkind)} if tkind else {}
+    out = harness.execute(lambda: w.run(cfg, registry=case["registry"], progress=progress, **xkw), sc)
     case2 = dict(case, sched=harness.with_trace(sc, out))
     exp_run = expected_run(spec, need, output, use_reg)
+    extra_exec = set()
+    if tkind and tkind.endswith("add"):
+        exp_run[("xfs", "harness.xf")] += 1
+        extra_exec.add("xf")
+    if tkind and tkind.endswith("wrap") and output is not None:
+        exp_run[("xfs", "harness.xw")] += 1
+        extra_exec.add("xw")
     scopes = {k for k in exp_run}
     failed_any = any(e[1] == "raise" for e in w.events)
     if record:
         ctx.case(case, len(scopes) >= 2 and (failed_any or use_reg),
                  common.sched_classes(case, out) + [f"status:{out.status}", f"observers:{case['nobs']}",
-                                                    "registry" if use_reg else "no_registry"])
+                                                    "registry" if use_reg else "no_registry", f"transform:{tkind}"])
     if out.verdict or out.uncaught:
         ctx.violation(case2, f"scheduler verdict {out.verdict} {out.verdict_info}; uncaught {out.uncaught!r}")
     if failed_any and out.status == "ok":
@@ -314,7 +324,7 @@ def check_case(ctx, case, record=True):
     # observed executions of user calls and store operations agree with the announced run totals
     if out.status == "ok":
         obs = refmodel.observed(w)
-        if set(obs["exec"]) != need["exec"] or set(obs["reads"]) != need["reads"] or set(obs["writes"]) != need["writes"]:
+        if set(obs["exec"]) != need["exec"] | extra_exec or set(obs["reads"]) != need["reads"] or set(obs["writes"]) != need["writes"]:
             ctx.violation(case2, f"executions {dict(obs['exec'])}/{dict(obs['reads'])}/{dict(obs['writes'])} differ from the needed set")
     base = recs[0].events
     for ri, r in enumerate(recs[1:], 1):
